@@ -286,6 +286,196 @@ static void treeDeepSweeps(Ctx& c, const char* en, unsigned maxN)
 	}
 }
 
+// ------------------------------------------------------------------ part 2 (-DC04S_PART=2): element / parameter categories that part 1 lacks
+// (a) "copy-only with noexcept swap" elements (ElemSW): ObjectManager::pvAssignAnyway / pvShiftNothrow swap variants - hash buckets
+//     replace the removed item by the last one through swap, tree nodes are contiguous and shift by swap;
+// (b) constructors of the objects that MemManagerProxy::AllocateCreate places in a fresh block can throw: the tree's NodeParams and
+//     the hash table's BucketParams construct one memory pool per node / bucket size from the user's MemPoolParams class (its
+//     constructor is made to throw on the k-th call), the crew's Data copies the user's traits object (its copy constructor is made
+//     to throw): the block must be given back (AllocateCreate's catch), the container unchanged and usable.
+struct ThrowPoolParams : public momo::MemPoolParams<2, 0>
+{
+	explicit ThrowPoolParams(size_t blockSize) : momo::MemPoolParams<2, 0>((funcPoint(), blockSize)) {}
+	explicit ThrowPoolParams(size_t blockSize, size_t blockAlignment) : momo::MemPoolParams<2, 0>((funcPoint(), blockSize), blockAlignment) {}
+};
+
+template<typename Key, typename HashBucket>
+struct CopyThrowHashTraits : public ThrowHashTraits<Key, HashBucket>
+{
+	CopyThrowHashTraits() {}
+	CopyThrowHashTraits(const CopyThrowHashTraits&) : ThrowHashTraits<Key, HashBucket>() { funcPoint(); }
+	CopyThrowHashTraits& operator=(const CopyThrowHashTraits&) = default;
+};
+template<typename Key, typename Node>
+struct CopyThrowTreeTraits : public ThrowTreeTraits<Key, Node, false>
+{
+	CopyThrowTreeTraits() {}
+	CopyThrowTreeTraits(const CopyThrowTreeTraits&) : ThrowTreeTraits<Key, Node, false>() { funcPoint(); }
+	CopyThrowTreeTraits& operator=(const CopyThrowTreeTraits&) = default;
+};
+
+// constructor-like expression `build` under every k-th failure of every kind (incl. functor / parameter-class faults)
+template<typename F>
+static void ctorSweep3(Ctx& c, const std::string& name, F build)
+{
+	for (int m = 0; m < 3; ++m) {
+		for (long k = 0; k < 400; ++k) {
+			long liveBefore = ec().live; size_t blocksBefore = mm().live.size();
+			arm((Mode)m, k);
+			bool threw = false;
+			try { build(); } catch (const std::bad_alloc&) { threw = true; } catch (const std::runtime_error&) { threw = true; } catch (const std::domain_error&) { threw = true; }
+			bool fired = disarm((Mode)m);
+			c.stats.evaluations++;
+			if (threw) {
+				c.stats.count(std::string("sweep.ctor3_threw.") + modeName[m]); c.stats.nontrivial(fmt("%s/ctor/%s/%ld", name.c_str(), modeName[m], k));
+				if (ec().live != liveBefore) c.fail("C04 ctor: %s, %s failure #%ld: %ld element objects left constructed", name.c_str(), modeName[m], k, ec().live - liveBefore);
+				if (mm().live.size() != blocksBefore) c.fail("C04 ctor: %s, %s failure #%ld: %zu blocks left allocated by the failed constructor", name.c_str(), modeName[m], k, mm().live.size() - blocksBefore);
+			}
+			else {
+				if (ec().live != liveBefore) { c.fail("C03 elements: %s, %s failure #%ld: %ld element objects alive after destruction", name.c_str(), modeName[m], k, ec().live - liveBefore); ec().live = liveBefore; }
+				if (mm().live.size() != blocksBefore) { c.fail("C03 leak: %s, %s failure #%ld: %zu blocks outstanding after destruction", name.c_str(), modeName[m], k, mm().live.size() - blocksBefore); }
+			}
+			if (mm().badDealloc) { c.fail("C03 dealloc: %s ctor, %s failure #%ld: %zu bad deallocations (double free)", name.c_str(), modeName[m], k, mm().badDealloc); mm().badDealloc = 0; }
+			if (!threw && !fired) break;
+		}
+	}
+}
+
+template<typename E>
+static void allocateCreateSweeps(Ctx& c, const char* en)
+{
+	// tree: NodeParams = one MemPool per leaf capacity, each built from ThrowPoolParams(leafNodeSize)
+	typedef momo::TreeNode<4, 1, ThrowPoolParams, true> Node;
+	typedef ThrowTreeTraits<E, Node, false> Tr;
+	typedef momo::TreeSet<E, Tr, FaultMM, momo::TreeSetItemTraits<E, FaultMM>, NoExtraT> Set;
+	typedef momo::TreeMap<E, E, Tr, FaultMM, momo::TreeMapKeyValueTraits<E, E, FaultMM>, NoExtraTM> Map;
+	static_assert(Set::Node::leafMemPoolCount >= 3, "several leaf pools, so that a later pool's parameters can fail after earlier pools exist");
+	std::string N = fmt("pool-params fault %s", en);
+	sweep<Set>(c, "TreeSet.Insert(first: creates NodeParams) " + N, [](Set&) {}, [](Set& s) { s.Insert(E(5)); }, snapSet<Set>, true, true);
+	sweep<Map>(c, "TreeMap.Insert(first: creates NodeParams) " + N, [](Map&) {}, [](Map& m) { m.Insert(E(5), E(6)); }, snapMap<Map>, true, true);
+	sweep<Map>(c, "TreeMap.operator[](first: creates NodeParams) " + N, [](Map&) {}, [](Map& m) { E k(5); m[k] = E(6); }, snapMap<Map>, true, true);
+	sweep<Set>(c, "TreeSet.operator=(copy into empty: creates NodeParams) " + N, [](Set&) {}, [](Set& s) { mm().disarm(); long cc = ec().copyCountdown, fcd = fc().countdown; ec().copyCountdown = -1; fc().countdown = -1; Set t; for (unsigned i = 0; i < 7; ++i) t.Insert(E(700 + i)); ec().copyCountdown = cc; fc().countdown = fcd; s = t; }, snapSet<Set>, true);
+	for (unsigned n : { 1u, 6u }) ctorSweep3(c, fmt("TreeSet(copy) n=%u ", n) + N, [n] { long cc = ec().copyCountdown, fcd = fc().countdown; long ra = mm().refuseAfter; ec().copyCountdown = -1; fc().countdown = -1; mm().refuseAfter = -1; Set s; for (unsigned i = 0; i < n; ++i) s.Insert(E(i * 4)); ec().copyCountdown = cc; fc().countdown = fcd; mm().refuseAfter = ra; Set d(s); });
+	{	// MergeTo into a set that never had nodes: the destination's NodeParams are created by the merge (TreeSet.h fast path)
+		typedef momo::TreeSet<E, momo::TreeTraits<E, false, Node, true>, FaultMM, momo::TreeSetItemTraits<E, FaultMM>, NoExtraT> SetE;
+		for (long k = 0; k < 40; ++k) {
+			bool threw = false, fired = false;
+			{
+				SetE src, dst; for (unsigned i = 0; i < 9; ++i) src.Insert(E(i));
+				long live0 = ec().live; size_t blocks0 = mm().live.size();
+				arm(M_FUNC, k);
+				try { src.MergeTo(dst); } catch (const std::domain_error&) { threw = true; }
+				fired = disarm(M_FUNC);
+				c.stats.evaluations++;
+				if (threw) {
+					c.stats.nontrivial(fmt("TreeSet.MergeTo(empty) %s/%ld", N.c_str(), k));
+					if (src.GetCount() + dst.GetCount() != 9 || ec().live != live0) c.fail("C10 conserve: TreeSet.MergeTo(never-used destination) %s, parameter failure #%ld: source %zu + destination %zu elements, %ld objects alive (9 / %ld before)", N.c_str(), k, src.GetCount(), dst.GetCount(), ec().live, live0);
+					if (mm().live.size() != blocks0) c.fail("C04 leak: TreeSet.MergeTo(never-used destination) %s, parameter failure #%ld: %zu blocks outstanding, %zu before the failed call", N.c_str(), k, mm().live.size(), blocks0);
+					try { src.MergeTo(dst); } catch (...) { c.fail("C10 usable: TreeSet.MergeTo(never-used destination) %s: retry threw", N.c_str()); }
+				}
+				if (dst.GetCount() + src.GetCount() != 9) c.fail("C10 conserve: TreeSet.MergeTo(never-used destination) %s #%ld: %zu + %zu elements afterwards", N.c_str(), k, src.GetCount(), dst.GetCount());
+			}
+			if (!mm().live.empty()) { c.fail("C03 leak: TreeSet.MergeTo %s #%ld: %zu blocks outstanding after destruction", N.c_str(), k, mm().live.size()); mm().live.clear(); }
+			if (ec().live != 0) { c.fail("C03 elements: TreeSet.MergeTo %s #%ld: %ld element objects alive after destruction", N.c_str(), k, ec().live); ec().live = 0; }
+			if (!threw && !fired) break;
+		}
+	}
+	// hash: BucketParams of HashBucketLimP1 / LimP = one MemPool per bucket size, each built from ThrowPoolParams(blockSize, alignment)
+	typedef momo::HashBucketLimP1<3, ThrowPoolParams> HB1;
+	typedef momo::HashBucketLimP<4, ThrowPoolParams> HBP;
+	typedef momo::HashSet<E, ThrowHashTraits<E, HB1>, FaultMM, momo::HashSetItemTraits<E, FaultMM>, NoExtraS> HSet1;
+	typedef momo::HashSet<E, ThrowHashTraits<E, HBP>, FaultMM, momo::HashSetItemTraits<E, FaultMM>, NoExtraS> HSetP;
+	typedef momo::HashMap<E, E, ThrowHashTraits<E, HB1>, FaultMM, momo::HashMapKeyValueTraits<E, E, FaultMM>, NoExtraM> HMap1;
+	sweep<HSet1>(c, "HashSet<LimP1>.Insert(first: creates BucketParams) " + N, [](HSet1&) {}, [](HSet1& s) { s.Insert(E(5)); }, snapSet<HSet1>, true, true);
+	sweep<HSetP>(c, "HashSet<LimP>.Insert(first: creates BucketParams) " + N, [](HSetP&) {}, [](HSetP& s) { s.Insert(E(5)); }, snapSet<HSetP>, true, true);
+	sweep<HSet1>(c, "HashSet<LimP1>.Reserve(first: creates BucketParams) " + N, [](HSet1&) {}, [](HSet1& s) { s.Reserve(10); }, snapSet<HSet1>, true, true);
+	sweep<HMap1>(c, "HashMap<LimP1>.operator[](first: creates BucketParams) " + N, [](HMap1&) {}, [](HMap1& m) { E k(5); m[k] = E(6); }, snapMap<HMap1>, true, true);
+	for (unsigned n : { 1u, 6u }) ctorSweep3(c, fmt("HashSet<LimP1>(copy) n=%u ", n) + N, [n] { long cc = ec().copyCountdown, fcd = fc().countdown; long ra = mm().refuseAfter; ec().copyCountdown = -1; fc().countdown = -1; mm().refuseAfter = -1; HSet1 s; for (unsigned i = 0; i < n; ++i) s.Insert(E(i * 3)); ec().copyCountdown = cc; fc().countdown = fcd; mm().refuseAfter = ra; HSet1 d(s); });
+	// crew: Data(containerTraits) copies the traits object
+	typedef CopyThrowHashTraits<E, momo::HashBucketLimP4<>> CTH;
+	typedef momo::HashSet<E, CTH, FaultMM, momo::HashSetItemTraits<E, FaultMM>, NoExtraS> HSetC;
+	typedef momo::TreeNode<4, 1, momo::MemPoolParams<2, 0>, true> Node4;
+	typedef CopyThrowTreeTraits<E, Node4> CTT;
+	typedef momo::TreeSet<E, CTT, FaultMM, momo::TreeSetItemTraits<E, FaultMM>, NoExtraT> TSetC;
+	static_assert(!std::is_nothrow_move_constructible<CTH>::value && !std::is_nothrow_move_constructible<CTT>::value, "the crew keeps such traits behind a pointer (AllocateCreate<Data>)");
+	std::string NC = fmt("traits-copy fault %s", en);
+	ctorSweep3(c, "HashSet(traits) " + NC, [] { CTH tr; HSetC s(tr); });
+	ctorSweep3(c, "TreeSet(traits) " + NC, [] { CTT tr; TSetC s(tr); });
+	for (unsigned n : { 0u, 5u }) {
+		ctorSweep3(c, fmt("HashSet(copy) n=%u ", n) + NC, [n] { long cc = ec().copyCountdown, fcd = fc().countdown; long ra = mm().refuseAfter; ec().copyCountdown = -1; fc().countdown = -1; mm().refuseAfter = -1; HSetC s; for (unsigned i = 0; i < n; ++i) s.Insert(E(i * 3)); ec().copyCountdown = cc; fc().countdown = fcd; mm().refuseAfter = ra; HSetC d(s); });
+		ctorSweep3(c, fmt("TreeSet(copy) n=%u ", n) + NC, [n] { long cc = ec().copyCountdown, fcd = fc().countdown; long ra = mm().refuseAfter; ec().copyCountdown = -1; fc().countdown = -1; mm().refuseAfter = -1; TSetC s; for (unsigned i = 0; i < n; ++i) s.Insert(E(i * 3)); ec().copyCountdown = cc; fc().countdown = fcd; mm().refuseAfter = ra; TSetC d(s); });
+	}
+	for (unsigned n : { 0u, 5u }) {
+		auto mkH = [n](HSetC& s) { for (unsigned i = 0; i < n; ++i) s.Insert(E(i * 3)); };
+		sweep<HSetC>(c, fmt("HashSet.operator=(copy) n=%u ", n) + NC, mkH, [](HSetC& s) { long cc = ec().copyCountdown, fcd = fc().countdown; long ra = mm().refuseAfter; ec().copyCountdown = -1; fc().countdown = -1; mm().refuseAfter = -1; HSetC t; for (unsigned i = 0; i < 6; ++i) t.Insert(E(500 + i)); ec().copyCountdown = cc; fc().countdown = fcd; mm().refuseAfter = ra; s = t; }, snapSet<HSetC>, true);
+		auto mkT = [n](TSetC& s) { for (unsigned i = 0; i < n; ++i) s.Insert(E(i * 3)); };
+		sweep<TSetC>(c, fmt("TreeSet.operator=(copy) n=%u ", n) + NC, mkT, [](TSetC& s) { long cc = ec().copyCountdown, fcd = fc().countdown; long ra = mm().refuseAfter; ec().copyCountdown = -1; fc().countdown = -1; mm().refuseAfter = -1; TSetC t; for (unsigned i = 0; i < 6; ++i) t.Insert(E(500 + i)); ec().copyCountdown = cc; fc().countdown = fcd; mm().refuseAfter = ra; s = t; }, snapSet<TSetC>, true);
+	}
+}
+
+// HashMultiMap::Remove(iterator) of a value that is not the last of its key: the last value takes its place through
+// KeyValueTraits::AssignAnywayValue (for ElemSW: the swap variant of ObjectManager::pvAssignAnyway)
+template<typename E>
+static void multiMapRemoveValue(Ctx& c, const char* en)
+{
+	typedef ThrowHashTraits<E, momo::HashBucketLimP4<>> Tr;
+	typedef momo::HashMultiMap<E, E, Tr, FaultMM, momo::HashMultiMapKeyValueTraits<E, E, FaultMM>, MMS> MMap;
+	for (unsigned n : { 1u, 2u, 7u, 19u }) for (unsigned t = 0; t < n; ++t) {
+		{
+			MMap m; std::multiset<std::pair<uint32_t, uint32_t>> ref;
+			for (unsigned i = 0; i < n; ++i) { m.Add(E(i % 3), E(100 + i)); ref.insert({ i % 3, 100 + i }); }
+			long live0 = ec().live;
+			typename MMap::ConstIterator target; bool found = false;
+			for (typename MMap::ConstIterator it = m.GetBegin(); !!it; ++it) if (idOf(it->value) == 100 + t) { target = it; found = true; }
+			if (!found) { c.fail("C08 harness: value %u not found in the traversal", 100 + t); continue; }
+			m.Remove(target);
+			ref.erase(ref.find({ t % 3, 100 + t }));
+			std::multiset<std::pair<uint32_t, uint32_t>> now;
+			bool alive = true;
+			for (auto r : m) { now.insert({ idOf(r.key), idOf(r.value) }); if (r.key.state != 0xA11CE || r.value.state != 0xA11CE) alive = false; }
+			c.stats.evaluations++; c.stats.nontrivial(fmt("mmap.removeValue %s n=%u t=%u", en, n, t));
+			if (now != ref || m.GetCount() != ref.size()) c.fail("C08 remove value: HashMultiMap<%s> n=%u: after Remove(iterator of value %u) the pairs are not the reference pairs minus that one (%zu pairs, reference %zu)", en, n, 100 + t, now.size(), ref.size());
+			if (!alive) c.fail("C08 remove value: HashMultiMap<%s> n=%u value %u: a key / value object inside the container is not alive", en, n, 100 + t);
+			if (ec().live != live0 - 1) c.fail("C03 elements: HashMultiMap<%s> n=%u: %ld objects alive after removing one value, expected %ld", en, n, ec().live, live0 - 1);
+		}
+		if (!mm().live.empty()) { c.fail("C03 leak: HashMultiMap<%s> remove value: %zu blocks outstanding after destruction", en, mm().live.size()); mm().live.clear(); }
+		if (ec().live != 0) { c.fail("C03 elements: HashMultiMap<%s> remove value: %ld objects alive after destruction", en, ec().live); ec().live = 0; }
+	}
+}
+
+#ifndef C04S_PART
+#define C04S_PART 1
+#endif
+
+#if C04S_PART == 2
+int main(int argc, char** argv)
+{
+	Ctx c = parseArgs(argc, argv);
+	typedef momo::internal::ObjectManager<ElemSW, FaultMM> OSW;
+	static_assert(!OSW::isNothrowRelocatable && OSW::isNothrowSwappable && OSW::isNothrowAnywayAssignable && OSW::isNothrowShiftable && !std::is_nothrow_move_assignable<ElemSW>::value, "ElemSW category");
+	static_assert(momo::TreeSet<ElemSW, ThrowTreeTraits<ElemSW, momo::TreeNode<4, 1, momo::MemPoolParams<2, 0>, true>, false>, FaultMM>::Node::isContinuous, "ElemSW: contiguous nodes");
+	long sw0 = ec().swaps;
+	{
+		Suite s(c, "obj_sw", "model obj");
+		objSuite<ElemSW>(c, s, "copyonly", true);	// RelocateCreate treats it as copy-only
+	}
+	arraySweeps<ElemSW>(c, "copy-only+swap");
+	hashSweeps<ElemSW, momo::HashBucketLimP4<>>(c, "copy-only+swap", "LimP4");
+	hashSweeps<ElemSW, momo::HashBucketOpen8>(c, "copy-only+swap", "Open8");
+	multiMapSweeps<ElemSW>(c, "copy-only+swap");
+	multiMapRemoveValue<ElemSW>(c, "copy-only+swap");
+	multiMapRemoveValue<ElemNM>(c, "nothrow-move");
+	multiMapRemoveValue<ElemCA>(c, "copy-only nothrow-assign");
+	treeSweeps<ElemSW, 4>(c, "copy-only+swap");
+	treeSweeps<ElemSW, 2>(c, "copy-only+swap");
+	treeDeepSweeps<ElemSW, 3>(c, "copy-only+swap", c.thorough ? 200 : 60);
+	if (ec().swaps == sw0) c.fail("C04 harness: the ElemSW sweeps never called swap");
+	c.stats.count("elemsw.swap_calls", (uint64_t)(ec().swaps - sw0));
+	allocateCreateSweeps<ElemNM>(c, "nothrow-move");
+	allocateCreateSweeps<ElemCO>(c, "copy-only");
+	return c.finish();
+}
+#else
 int main(int argc, char** argv)
 {
 	Ctx c = parseArgs(argc, argv);
@@ -310,3 +500,4 @@ int main(int argc, char** argv)
 	treeDeepSweeps<ElemCO, 3>(c, "copy-only", c.thorough ? 400 : 130);
 	return c.finish();
 }
+#endif
